@@ -15,6 +15,9 @@ import EaselModel.Msa.LemmasPairs
 import EaselModel.Msa.LemmasClass
 import EaselModel.Msa.LemmasPk3
 import EaselModel.Msa.LemmasRbbOk
+import EaselModel.Msa.LemmasCmp
+import EaselModel.Msa.LemmasConv2
+import EaselModel.Msa.LemmasRbbSs
 /-! # C15 — alignment transformations keep the alignment well formed and the residues intact; WUSS round trips
 
 Property theorems only; proofs are glue on the lemmas of `EaselModel/Msa/Lemmas*.lean`.
@@ -567,6 +570,305 @@ theorem wussFull_nopk (ss : Bytes) (hnl : ∀ c ∈ ss, isAlpha c = false) (ct :
 theorem wussReverse_involutive (ss : Bytes) : wussReverse (wussReverse ss) = ss :=
   wussReverse_wussReverse ss
 
+/-! ## the SS_cons of the ALIGNMENT after a DNA/RNA `esl_msa_ColumnSubset` (nested and pseudoknotted lines alike) -/
+
+/-- THE PROPERTY'S LAST CLAUSE ON THE ALIGNMENT ITSELF: whenever `esl_msa_ColumnSubset` returns `eslOK` on a DNA/RNA
+    alignment whose SS_cons is any balanced WUSS string (pseudoknot letters included), the SS_cons of the resulting
+    alignment is a balanced WUSS string whose pairs are EXACTLY the original pairs with both partners retained
+    (`breakPairs`, characterised by `removeBroken_keeps_exactly`), renumbered to the new columns (`newPos`). -/
+theorem columnSubset_msa_sscons_pairs (m : Msa) (mask : List Bool) (a : Abc) (wf : m.WF) (habc : m.abc = some a)
+    (hn : a.isNucleic = true) (hm : mask.length = m.alen) (ss : Bytes) (hss : m.ss_cons = some ss) (ct : List Nat)
+    (h : wuss2ct ss = some ct) (hok : (columnSubset m mask).st = .ok) :
+    ∃ ss2 ps, (columnSubset m mask).msa.ss_cons = some ss2 ∧ ss2.length = (columnSubset m mask).msa.alen ∧
+      breakPairs mask 1 ss.length ct = tableOf (List.replicate (ss.length + 1) 0) ps ∧
+      wuss2ct ss2 = some (tableOf (List.replicate (ss2.length + 1) 0) (relabelPs (newPos mask) ps)) := by
+  have hrok : (removeBrokenBasepairs m mask).st = .ok := by
+    by_cases hc : (removeBrokenBasepairs m mask).st = .ok
+    · exact hc
+    · rw [(columnSubset_nucleic m mask a wf habc hn hm).2 hc] at hok
+      exact absurd hok hc
+  obtain ⟨heq, hwf, _⟩ := (columnSubset_nucleic m mask a wf habc hn hm).1 hrok
+  obtain ⟨ss', h1, h2⟩ := removeBrokenBasepairs_sscons' m mask ss hss hrok
+  have hlen : ss.length = m.alen := (wf.ss_cons_ok ss hss).1
+  obtain ⟨ps, hp1, hp2⟩ := columnSubset_pairs_pk ss ss' mask ct h (by rw [hm, hlen]) h1
+  refine ⟨maskFilter mask ss', ps, ?_, ?_, hp1, hp2⟩
+  · rw [heq]; simp [Msa.colFilter, h2]
+  · rw [heq]
+    have := hwf.ss_cons_ok (maskFilter mask ss') (by simp [Msa.colFilter, h2])
+    exact this.1
+
+/-! ## esl_msa_Compare: the equality test other checks use as an oracle -/
+
+/-- `esl_msa_Compare(a1, a2)` returns `eslOK` IF AND ONLY IF the two alignments agree in every field its documentation
+    lists: `nseq`, `alen`, `flags`, sequence names, aligned rows, weights (up to `esl_DCompare_old(.., 0.001)`), name,
+    description, accession, author, SS_cons, SA_cons, PP_cons, RF, MM, per-sequence accession / description / SS / SA /
+    PP, which cutoffs are set and their values (up to `esl_FCompare_old(.., 0.01)`); `dcmp`, `fcmp` are those two
+    tolerance tests (ANY functions: the theorem does not depend on floating-point arithmetic). -/
+theorem compare_ok_iff (dcmp : UInt64 → UInt64 → Bool) (fcmp : UInt32 → UInt32 → Bool) (a b : Msa) (ha : a.Shape) (hb : b.Shape) :
+    compare dcmp fcmp a b = .ok ↔ (SameMandatory dcmp a b ∧ SameOptional fcmp a b) :=
+  (compare_spec dcmp fcmp a b ha hb).2
+
+/-- ... otherwise it returns `eslFAIL`: no other status, and no read outside an array (`fault` unreachable) -/
+theorem compare_ok_or_fail (dcmp : UInt64 → UInt64 → Bool) (fcmp : UInt32 → UInt32 → Bool) (a b : Msa) (ha : a.Shape) (hb : b.Shape) :
+    compare dcmp fcmp a b = .ok ∨ compare dcmp fcmp a b = .efail :=
+  (compare_spec dcmp fcmp a b ha hb).1
+
+theorem compareMandatory_ok_iff (dcmp : UInt64 → UInt64 → Bool) (a b : Msa) (ha : a.Shape) (hb : b.Shape) :
+    compareMandatory dcmp a b = .ok ↔ SameMandatory dcmp a b :=
+  (compareMandatory_spec dcmp a b ha hb).2
+
+theorem compareOptional_ok_iff (fcmp : UInt32 → UInt32 → Bool) (a b : Msa) (ha : a.Shape) (hb : b.Shape) (hn : a.nseq = b.nseq) :
+    compareOptional fcmp a b = .ok ↔ SameOptional fcmp a b :=
+  (compareOptional_spec fcmp a b ha hb hn).2
+
+/-- what `esl_msa_Compare` does NOT look at ("unparsed Stockholm markup is not compared" — and the alphabet pointer):
+    comments, GF, GS, GC, GR and `abc` of either argument are irrelevant -/
+theorem compare_ignores_unparsed (dcmp : UInt64 → UInt64 → Bool) (fcmp : UInt32 → UInt32 → Bool) (a b : Msa)
+    (abc' : Option Abc) (c' : List Bytes) (gf' : List (Bytes × Bytes)) (gs' gr' : TagTable) (gc' : List (Bytes × Bytes)) :
+    compare dcmp fcmp a { b with abc := abc', comment := c', gf := gf', gs := gs', gc := gc', gr := gr' } = compare dcmp fcmp a b ∧
+    compare dcmp fcmp { a with abc := abc', comment := c', gf := gf', gs := gs', gc := gc', gr := gr' } b = compare dcmp fcmp a b :=
+  ⟨compare_congr dcmp fcmp _ _ _ _ rfl rfl, compare_congr dcmp fcmp _ _ _ _ rfl rfl⟩
+
+/-- reflexive whenever the two tolerance tests are (both C functions accept `x, x` for every finite, infinite or NaN `x`) -/
+theorem compare_refl (dcmp : UInt64 → UInt64 → Bool) (fcmp : UInt32 → UInt32 → Bool) (hd : ∀ x, dcmp x x = true)
+    (hf : ∀ x, fcmp x x = true) (a : Msa) (ha : a.Shape) : compare dcmp fcmp a a = .ok :=
+  (compare_spec dcmp fcmp a a ha ha).2.2
+    ⟨⟨rfl, rfl, rfl, rfl, rfl, fun _ _ => hd _⟩,
+     ⟨rfl, rfl, rfl, rfl, rfl, rfl, rfl, rfl, rfl, rfl, rfl, rfl, rfl, rfl, rfl, fun _ _ _ => hf _⟩⟩
+
+/-- a clone compares equal; a well-formed alignment with its 6 cutoff slots has the shape `esl_msa_Compare` needs -/
+theorem compare_clone (dcmp : UInt64 → UInt64 → Bool) (fcmp : UInt32 → UInt32 → Bool) (hd : ∀ x, dcmp x x = true)
+    (hf : ∀ x, fcmp x x = true) (m : Msa) (wf : m.WF) (hc : m.cutoff.length = 6) (hs : m.cutset.length = 6) :
+    compare dcmp fcmp m (clone m) = .ok :=
+  compare_refl dcmp fcmp hd hf m (wf.shape hc hs)
+
+/-! ## esl_msa_Hash / esl_msa_CheckUniqueNames, esl_msa_Checksum -/
+
+/-- `esl_msa_Hash` returns `eslOK` iff the sequence names are pairwise distinct, `eslEDUP` otherwise;
+    `esl_msa_CheckUniqueNames` returns `eslOK` / `eslFAIL` on the same condition -/
+theorem hashNames_ok_iff (m : Msa) :
+    (hashNames m = .ok ↔ (m.sqname.take m.nseq).Nodup) ∧ (hashNames m = .ok ∨ hashNames m = .edup) ∧
+    (checkUniqueNames m = .ok ↔ (m.sqname.take m.nseq).Nodup) ∧ (checkUniqueNames m = .ok ∨ checkUniqueNames m = .efail) := by
+  refine ⟨hashNames_ok_iff' m, hashNames_cases m, ?_, ?_⟩
+  · rw [checkUniqueNames_eq, ← hashNames_ok_iff' m]
+    rcases hashNames_cases m with h | h <;> simp [h]
+  · rw [checkUniqueNames_eq]
+    rcases hashNames_cases m with h | h <;> simp [h]
+
+/-- `esl_msa_Checksum` on a well-formed alignment is Jenkins' one-at-a-time hash of the concatenated rows and of nothing
+    else (names, weights, annotation and even the row boundaries are invisible to it) -/
+theorem checksum_is_hash_of_rows (m : Msa) (wf : m.WF) :
+    checksum m = jenkinsFinal (m.rows.flatten.foldl (fun v c => jenkinsStep v (cellWord m.isDigital c)) 0) :=
+  checksum_flat m wf
+
+/-- hence every operation that keeps the rows and the mode keeps the checksum (Clone, SetDefaultWeights, annotation edits) -/
+theorem checksum_congr (m m' : Msa) (wf : m.WF) (wf' : m'.WF) (hr : m.rows = m'.rows) (hd : m.isDigital = m'.isDigital) :
+    checksum m = checksum m' := by
+  rw [checksum_flat m wf, checksum_flat m' wf', hr, hd]
+
+/-! ## esl_msa_ConvertDegen2X, esl_msa_SymConvert, esl_msa_SetDefaultWeights, esl_msa_ReasonableRF -/
+
+/-- `esl_msa_ConvertDegen2X` on a digital alignment: only the rows change; the alignment stays well formed; in every row
+    the residue / gap / missing-data pattern is unchanged (the ungapped sequence keeps its length and register), a cell
+    that was not a degenerate code is untouched, and the only degenerate code left is the unknown residue (`X` / `N`);
+    applying it twice is applying it once -/
+theorem convertDegen2X_spec (m : Msa) (a : Abc) (wf : m.WF) (hd : m.isDigital = true) (habc : m.abc = some a) (hk : a.degenOk) :
+    convertDegen2X m = { msa := { m with rows := m.rows.map (degen2XRow a) }, st := .ok } ∧
+    ({ m with rows := m.rows.map (degen2XRow a) } : Msa).WF ∧
+    (∀ r ∈ m.rows, (degen2XRow a r).length = r.length ∧
+      (degen2XRow a r).map a.xIsResidue = r.map a.xIsResidue ∧ (degen2XRow a r).map a.xIsGap = r.map a.xIsGap ∧
+      (degen2XRow a r).map a.xIsMissing = r.map a.xIsMissing ∧
+      (∀ i, a.xIsDegenerate (r.getD i 0) = false → (degen2XRow a r).getD i 0 = r.getD i 0) ∧
+      (∀ y ∈ degen2XRow a r, a.xIsDegenerate y = true → y = a.xUnknown) ∧
+      degen2XRow a (degen2XRow a r) = degen2XRow a r) := by
+  refine ⟨by simp [convertDegen2X, hd, habc], convertDegen2X_wf a hk m wf hd, fun r _ => ?_⟩
+  obtain ⟨p1, p2, p3⟩ := degen2XRow_pattern a hk r
+  refine ⟨degen2XRow_length a r, p1, p2, p3, ?_, ?_, degen2XRow_idem a r⟩
+  · intro i hi
+    by_cases hlt : i < r.length
+    · simp only [degen2XRow, List.getD_eq_getElem?_getD, List.getElem?_map, List.getElem?_eq_getElem hlt, Option.map_some,
+        Option.getD_some] at hi ⊢
+      exact (degen2X_cell a hk _).2.2.2.2.1 hi
+    · simp [degen2XRow, List.getD_eq_getElem?_getD, List.getElem?_eq_none (Nat.le_of_not_lt hlt)]
+  · intro y hy hdeg
+    simp only [degen2XRow, List.mem_map] at hy
+    obtain ⟨x, _, rfl⟩ := hy
+    exact (degen2X_cell a hk x).2.2.2.1 hdeg
+
+/-- the three generated alphabets have that shape -/
+theorem generated_degen_ok : Gen.rnaAbc.degenOk ∧ Gen.dnaAbc.degenOk ∧ Gen.aminoAbc.degenOk := by
+  unfold Abc.degenOk; decide
+
+theorem convertDegen2X_text (m : Msa) (hd : m.isDigital = false) : convertDegen2X m = { msa := m, st := .einval, exc := true } := by
+  simp [convertDegen2X, hd]
+
+/-- `esl_msa_SymConvert` on a text alignment with a valid symbol pair (`|newsyms| = |oldsyms|` or `|newsyms| = 1`):
+    only the rows change, each cell through `symConvChar` — a character not in `oldsyms` is kept, a character of
+    `oldsyms` becomes the symbol at the position of its FIRST occurrence (or the single new symbol); the alignment stays
+    well formed -/
+theorem symConvert_spec (m : Msa) (olds news : Bytes) (wf : m.WF) (hd : m.isDigital = false)
+    (hlen : olds.length = news.length ∨ news.length = 1) (hn : ∀ x ∈ news, x ≠ 0) :
+    symConvert m olds news = { msa := { m with rows := m.rows.map (fun r => r.map (symConvChar olds news)) }, st := .ok } ∧
+    ({ m with rows := m.rows.map (fun r => r.map (symConvChar olds news)) } : Msa).WF ∧
+    (∀ c, c ∉ olds → symConvChar olds news c = c) ∧
+    (∀ c ∈ olds, ∃ k, k < olds.length ∧ olds.getD k 0 = c ∧ (∀ j, j < k → olds.getD j 0 ≠ c) ∧
+      symConvChar olds news c = if news.length == 1 then news.getD 0 0 else news.getD k 0) := by
+  refine ⟨?_, ?_, symConvChar_not_mem olds news, symConvChar_mem olds news⟩
+  · have hc : ¬ ((olds.length ≠ news.length && news.length ≠ 1) = true) := by
+      rcases hlen with h | h <;> simp [h]
+    simp only [symConvert, hd, Bool.false_eq_true, if_false, hc, symConvert_rows m wf olds news]
+  · have ht : Msa.rowTerm { m with rows := m.rows.map (fun r => r.map (symConvChar olds news)) } = 0 := by
+      simp [Msa.rowTerm, Msa.isDigital] at hd ⊢; simp [hd]
+    have ht0 : m.rowTerm = 0 := by simp [Msa.rowTerm, hd]
+    refine { wf with rows_len := by simp [wf.rows_len], rows_ok := ?_ }
+    intro r hr
+    simp only [List.mem_map] at hr
+    obtain ⟨r0, hr0, rfl⟩ := hr
+    have h0 := wf.rows_ok r0 hr0
+    refine ⟨by simp [h0.1], ?_⟩
+    intro c hc
+    simp only [List.mem_map] at hc
+    obtain ⟨x, hx, rfl⟩ := hc
+    rw [ht]
+    have := h0.2 x hx
+    rw [ht0] at this
+    exact symConvChar_ne_zero olds news hn hlen x this
+
+/-- the two `eslEINVAL` exits leave the alignment untouched -/
+theorem symConvert_rejects (m : Msa) (olds news : Bytes)
+    (h : m.isDigital = true ∨ (olds.length ≠ news.length ∧ news.length ≠ 1)) :
+    symConvert m olds news = { msa := m, st := .einval, exc := true } := by
+  rcases h with h | h
+  · simp [symConvert, h]
+  · by_cases hd : m.isDigital = true
+    · simp [symConvert, hd]
+    · simp [symConvert, hd, h.1, h.2]
+
+/-- `esl_msa_SetDefaultWeights`: every weight 1.0, `eslMSA_HASWGTS` down, mode and everything else unchanged -/
+theorem setDefaultWeights_resets (m : Msa) :
+    (setDefaultWeights m).wgt = List.replicate m.wgt.length 0x3ff0000000000000 ∧
+    (setDefaultWeights m).hasWgts = false ∧ (setDefaultWeights m).isDigital = m.isDigital ∧
+    setDefaultWeights m = { m with wgt := (setDefaultWeights m).wgt, flags := (setDefaultWeights m).flags } :=
+  setDefaultWeights_spec m
+
+/-- `esl_msa_ReasonableRF(msa, symfrac, FALSE, rfline)` (on DIGITAL alignments the C code used to store through NULL;
+    repaired by 945fd6c, regression case in the corpus). PARTIAL: only `useconsseq = FALSE` is modelled, and only the
+    shape of the line is stated (the threshold test itself is floating-point arithmetic, L0): the line has `alen`
+    characters, each `x` or `.`, and a column in which no sequence has a residue is `.` for every threshold — for any
+    weight arithmetic in which `0 > 0` is false -/
+theorem reasonableRF_shape_partial {W : Type} (A : WArith W) (hA : ∀ t, A.isCons A.zero t = false) (m : Msa) (wgt : List W)
+    (rf : Bytes) (h : reasonableRF A m wgt = some rf) :
+    rf.length = m.alen ∧ (∀ c ∈ rf, c = 0x78 ∨ c = 0x2e) ∧
+    ∀ isRes isGapLike, rfPreds m = some (isRes, isGapLike) → ∀ apos, apos < m.alen →
+      (∀ r ∈ m.rows.take m.nseq, isRes (r.getD apos 0) = false) → rf.getD apos 0 = 0x2e := by
+  unfold reasonableRF at h
+  cases hp : rfPreds m with
+  | none => rw [hp] at h; cases h
+  | some pr =>
+    obtain ⟨isRes, isGapLike⟩ := pr
+    rw [hp] at h
+    simp only [Option.some.injEq] at h
+    subst h
+    refine ⟨by simp, ?_, ?_⟩
+    · intro c hc
+      simp only [List.mem_map] at hc
+      obtain ⟨apos, _, rfl⟩ := hc
+      exact rfColumn_cases A isRes isGapLike _
+    · intro isRes' isGapLike' he apos hlt hall
+      simp only [Option.some.injEq, Prod.mk.injEq] at he
+      obtain ⟨e1, e2⟩ := he
+      subst e1; subst e2
+      simp only [List.getD_eq_getElem?_getD, List.getElem?_map, List.getElem?_range hlt, Option.map_some, Option.getD_some]
+      apply rfColumn_no_residue A hA
+      intro cw hcw
+      have := List.of_mem_zip hcw
+      have h1 := this.1
+      simp only [List.mem_map] at h1
+      obtain ⟨r, hr, hre⟩ := h1
+      rw [← hre]
+      simpa [List.getD_eq_getElem?_getD] using hall r hr
+
+/-! ## esl_sq.c: conversions of a sequence object taken from an alignment -/
+
+/-- text -> digital -> text on a sequence (`esl_sq_Digitize`, `esl_sq_Textize`): every residue becomes the canonical
+    symbol of its code, and name, accession, description, source, secondary structure, extra residue markup and
+    coordinates are untouched -/
+theorem sq_text_digital_text (a : Abc) (q : Sq) (hq : q.abc = none) (hv : q.f.seq.all a.cIsValid = true) :
+    (sqDigitize a q).st = .ok ∧ (sqTextize (sqDigitize a q).sq).st = .ok ∧
+    (sqTextize (sqDigitize a q).sq).sq = { q with f := { q.f with seq := q.f.seq.map (fun c => a.sym.getD (a.digit c).toNat 0) } } := by
+  cases q with
+  | mk f abc start stop =>
+    simp only at hq hv
+    subst hq
+    simp [sqDigitize, sqTextize, hv, List.map_map, Function.comp_def]
+
+/-- an invalid character: `eslEINVAL`, the sequence untouched -/
+theorem sq_digitize_rejects (a : Abc) (q : Sq) (hq : q.abc = none) (hv : q.f.seq.all a.cIsValid = false) :
+    sqDigitize a q = { sq := q, st := .einval } := by
+  simp [sqDigitize, hq, hv]
+
+/-- digital -> text -> digital on a sequence is the identity -/
+theorem sq_digital_text_digital (a : Abc) (q : Sq) (hq : q.abc = some a) (ht : a.symInmapOk) (hc : ∀ x ∈ q.f.seq, x.toNat < a.Kp) :
+    (sqTextize q).st = .ok ∧ sqDigitize a (sqTextize q).sq = { sq := q, st := .ok } := by
+  cases q with
+  | mk f abc start stop =>
+    simp only at hq hc
+    subst hq
+    have hvalid : (f.seq.map (fun x => a.sym.getD x.toNat 0)).all a.cIsValid = true := by
+      simp only [List.all_eq_true, List.mem_map]
+      rintro _ ⟨x, hx, rfl⟩
+      exact (digit_sym a ht x (hc x hx)).2
+    have hback : (f.seq.map (fun x => a.sym.getD x.toNat 0)).map a.digit = f.seq := by
+      rw [List.map_map]
+      apply map_id_of_forall
+      intro x hx
+      exact (digit_sym a ht x (hc x hx)).1
+    refine ⟨rfl, ?_⟩
+    simp only [sqTextize, sqDigitize, hvalid, hback, Bool.not_true, Bool.false_eq_true, if_false]
+
+/-- `esl_sq_ReverseComplement`: same number of residues, `start` and `end` swapped, structure and extra residue markup
+    discarded ("revcomp invalidates ..."), everything else kept; in digital mode applying it twice restores the residues -/
+theorem sq_revcomp_spec (q : Sq) (h : (sqReverseComplement q).st ≠ .eincompat) :
+    (sqReverseComplement q).sq.f.seq.length = q.f.seq.length ∧
+    (sqReverseComplement q).sq.start = q.stop ∧ (sqReverseComplement q).sq.stop = q.start ∧
+    (sqReverseComplement q).sq.f.ss = none ∧ (sqReverseComplement q).sq.f.xr = [] ∧
+    (sqReverseComplement q).sq.f.name = q.f.name ∧ (sqReverseComplement q).sq.f.acc = q.f.acc ∧
+    (sqReverseComplement q).sq.f.desc = q.f.desc ∧ (sqReverseComplement q).sq.f.source = q.f.source ∧
+    (sqReverseComplement q).sq.abc = q.abc := by
+  unfold sqReverseComplement at h ⊢
+  cases hq : q.abc with
+  | none => simp
+  | some a =>
+    simp only [hq] at h ⊢
+    cases hc : a.complement with
+    | none => simp [hc] at h
+    | some compl => simp [revcompRow]
+
+theorem sq_revcomp_twice (a : Abc) (compl : List UInt8) (q : Sq) (hq : q.abc = some a) (hcompl : a.complement = some compl)
+    (hinv : a.complInvolutive compl) (hc : ∀ x ∈ q.f.seq, x.toNat < a.Kp) :
+    (sqReverseComplement q).st = .ok ∧ (sqReverseComplement (sqReverseComplement q).sq).st = .ok ∧
+    (sqReverseComplement (sqReverseComplement q).sq).sq = { q with f := { q.f with ss := none, xr := [] } } := by
+  cases q with
+  | mk f abc start stop =>
+    simp only at hq hc
+    subst hq
+    simp [sqReverseComplement, hcompl, revcompRow_twice a compl hinv f.seq hc]
+
+/-- the text-mode complement `switch` is an involution on the symbols it knows, except `U -> A -> T` (and `u`) -/
+theorem textCompl_involutive : ∀ n, n < 256 → ∀ d, textCompl (UInt8.ofNat n) = some d →
+    (n ≠ 0x55 ∧ n ≠ 0x75 → textCompl d = some (UInt8.ofNat n)) := by decide +kernel
+
+/-- text mode: the status is `eslEINVAL` exactly when some character is outside the `switch` (it becomes `N`) -/
+theorem sq_revcomp_text_status (q : Sq) (hq : q.abc = none) :
+    (sqReverseComplement q).st = (if q.f.seq.any (fun c => (textCompl c).isNone) then .einval else .ok) ∧
+    (sqReverseComplement q).sq.f.seq = (q.f.seq.map fun c => (textCompl c).getD 0x4e).reverse := by
+  simp [sqReverseComplement, hq]
+
+/-- `esl_sq_ConvertDegen2X` touches only the residues, through the same map as `esl_msa_ConvertDegen2X` -/
+theorem sq_convertDegen2X_spec (a : Abc) (q : Sq) (hq : q.abc = some a) :
+    sqConvertDegen2X q = { sq := { q with f := { q.f with seq := degen2XRow a q.f.seq } }, st := .ok } := by
+  simp [sqConvertDegen2X, hq]
+
 /-! ## non-vacuity -/
 
 def exMsa : Msa :=
@@ -586,5 +888,27 @@ example : balancedClass 0 [0x3c, 0x41, 0x3e, 0x61] ∧ balancedClass 1 [0x3c, 0x
 example : ¬ balancedClass 0 [0x3c, 0x29] := by unfold balancedClass; decide
 example : (List.range 6).map (newPos [true, false, true, true, false]) = [0, 1, 2, 2, 3, 4] := by decide
 example : (ct2wuss [0, 3, 4, 1, 2]).toOption = some [0x3c, 0x41, 0x3e, 0x61] := by decide
+
+/-- a digital RNA alignment with a PSEUDOKNOTTED SS_cons `<A>a.` : dropping column 2 (the `A`) keeps only the `<>` pair -/
+def exPk : Msa :=
+  { Msa.create 1 5 with rows := [[0, 1, 2, 3, 0]], flags := 2, abc := some Gen.rnaAbc,
+                        ss_cons := some [0x3c, 0x41, 0x3e, 0x61, 0x2e] }
+example : (columnSubset exPk [true, false, true, true, true]).st = .ok ∧
+    (columnSubset exPk [true, false, true, true, true]).msa.ss_cons = some [0x3c, 0x3e, 0x3a, 0x3a] := by decide
+def exMsa2 : Msa := { exMsa with sqname := [[0x61], [0x62]] }
+example : exMsa2.Shape := by constructor <;> decide
+example : compare (· == ·) (· == ·) exMsa2 exMsa2 = .ok ∧
+    compare (· == ·) (· == ·) exMsa2 { exMsa2 with rf := none } = .efail ∧
+    compare (· == ·) (· == ·) exMsa2 { exMsa2 with gc := [] } = .ok := by decide
+example : hashNames exMsa2 = .ok ∧ hashNames { exMsa2 with sqname := [[0x61], [0x61]] } = .edup := by decide
+example : symConvChar [0x2e, 0x2d, 0x2e] [0x78, 0x79, 0x7a] 0x2e = 0x78 ∧ symConvChar [0x2e, 0x2d] [0x2a] 0x2d = 0x2a := by decide
+example : degen2XRow Gen.rnaAbc [0, 4, 5, 15, 16, 17] = [0, 4, 15, 15, 16, 17] := by decide
+def exFetched : Fetched :=
+  { name := [0x73], acc := [], desc := [], source := [], seq := [0x41, 0x63, 0x55], ss := some [0x3c, 0x2e, 0x3e], xr := [] }
+def exSq : Sq := { f := exFetched, abc := none, start := 1, stop := 3 }
+example : exSq.f.seq.all Gen.rnaAbc.cIsValid = true := by decide
+example : (sqReverseComplement exSq).sq.f.seq = [0x41, 0x67, 0x54] ∧ (sqReverseComplement exSq).st = .ok := by decide
+example : (sqTextize (sqDigitize Gen.rnaAbc exSq).sq).sq.f.seq = [0x41, 0x43, 0x55] := by decide
+example : checksum exMsa = checksum { exMsa with sqname := [[0x61], [0x62]], rf := none } := by decide
 
 end EaselModel.Props.C15
